@@ -21,17 +21,22 @@ EXTENDS Naturals, Integers, TLC, Json
 
 MaxI(a, b) == IF a > b THEN a ELSE b
 
+\* "an animation": the image / renderable has several frames (multi) AND animate is true; an
+\* animated source drawn with animate = FALSE is a still draw of its current frame and is
+\* validated like one (in particular pad_height is not limited)
+Anim(c) == c.multi /\ c.animate
+
 NewVerdict(c) ==
-  \* c: [pw, ph, cols, rows, anim, check, scroll]
-  IF (c.check \/ c.anim) /\ c.pw > c.cols THEN "RenderSizeOutofRangeError"
-  ELSE IF (c.check \/ c.anim) /\ ~(c.scroll /\ ~c.anim) /\ c.ph > c.rows THEN "RenderSizeOutofRangeError"
+  \* c: [pw, ph, cols, rows, multi, animate, check, scroll]
+  IF (c.check \/ Anim(c)) /\ c.pw > c.cols THEN "RenderSizeOutofRangeError"
+  ELSE IF (c.check \/ Anim(c)) /\ ~(c.scroll /\ ~Anim(c)) /\ c.ph > c.rows THEN "RenderSizeOutofRangeError"
   ELSE "ok"
 
 OldVerdict(c) ==
-  \* c: [rw, rh, padw, padh, cols, rows, anim, check, scroll]   (padw/padh as given: <= 0 relative)
+  \* c: [rw, rh, padw, padh, cols, rows, multi, animate, check, scroll]   (padw/padh as given: <= 0 relative)
   IF c.padw > c.cols THEN "ValueError"
-  ELSE IF c.anim /\ c.padh > c.rows THEN "ValueError"
-  ELSE IF (c.check \/ c.anim) /\ c.rw > c.cols THEN "InvalidSizeError"
-  ELSE IF (c.check \/ c.anim) /\ ~(c.scroll /\ ~c.anim) /\ c.rh > c.rows THEN "InvalidSizeError"
+  ELSE IF Anim(c) /\ c.padh > c.rows THEN "ValueError"
+  ELSE IF (c.check \/ Anim(c)) /\ c.rw > c.cols THEN "InvalidSizeError"
+  ELSE IF (c.check \/ Anim(c)) /\ ~(c.scroll /\ ~Anim(c)) /\ c.rh > c.rows THEN "InvalidSizeError"
   ELSE "ok"
 =============================================================================
